@@ -309,6 +309,9 @@ class Report:
                     violations += 1
                     print("VIOLATION property=%s replay=%s" % (pid, path))
                     print("  %s" % f.get("what", ""))
+            elif f.get("candidate") and ok is False:
+                # a candidate produced by point evaluation that the real code does not confirm: undecided, not an error
+                self.inconclusive.append("%s: candidate not confirmed at the evaluation point" % f.get("what"))
             else:
                 harness_err = True
                 self.errors.append("model did not replay (%s): %s :: %s" % (f.get("what"), path, text.strip()[-400:]))
